@@ -46,9 +46,9 @@ type Run struct {
 	Tier    string
 	Shard   int
 	NShards int
-	Build   string // plain | race | race126
-	Replay  int64  // case index to replay, -1 for none
-	Reps    int    // replay repetitions
+	Build   string   // plain | race | race126
+	Replay  int64    // case index to replay, -1 for none
+	Reps    int      // replay repetitions
 	Known   []string // signatures of recorded (open) findings: reported, but they do not end the search
 
 	mu       sync.Mutex
@@ -62,6 +62,8 @@ type Run struct {
 	samples  []any
 	start    time.Time
 	knownN   map[string]int
+	curIdx   atomic.Int64
+	curDesc  atomic.Value
 }
 
 // MaxViolations is the number of violations after which a child stops
@@ -104,24 +106,32 @@ func (r *Run) Rng(stream string, caseIdx int64) *rand.Rand {
 // Mine reports whether this child is responsible for the case.
 func (r *Run) Mine(caseIdx int64) bool {
 	if r.Replay >= 0 {
+		if caseIdx == r.Replay {
+			r.curIdx.Store(caseIdx)
+		}
 		return caseIdx == r.Replay
 	}
 	if r.viols.Load() >= MaxViolations {
 		return false
 	}
-	return int(caseIdx%int64(r.NShards)) == r.Shard
+	if int(caseIdx%int64(r.NShards)) == r.Shard {
+		r.curIdx.Store(caseIdx)
+		return true
+	}
+	return false
 }
 
 // Stopped is true once enough violations were collected.
 func (r *Run) Stopped() bool { return r.viols.Load() >= MaxViolations }
 
-func (r *Run) Eval()            { r.evals.Add(1) }
-func (r *Run) EvalN(n int64)    { r.evals.Add(n) }
-func (r *Run) Evals() int64     { return r.evals.Load() }
+func (r *Run) Eval()             { r.evals.Add(1); Progress.Add(1) }
+func (r *Run) EvalN(n int64)     { r.evals.Add(n); Progress.Add(1) }
+func (r *Run) Evals() int64      { return r.evals.Load() }
 func (r *Run) Violations() int64 { return r.viols.Load() }
 
 // Distinct registers a distinct non-trivial case key.
 func (r *Run) Distinct(key string) {
+	Progress.Add(1)
 	r.mu.Lock()
 	if len(r.distinct) < MaxDistinctKeys {
 		r.distinct[key] = struct{}{}
@@ -136,6 +146,7 @@ func (r *Run) Distinct(key string) {
 const MaxDistinctKeys = 100000
 
 func (r *Run) Count(name string, n int64) {
+	Progress.Add(1)
 	r.mu.Lock()
 	r.counters[name] += n
 	r.mu.Unlock()
@@ -168,8 +179,48 @@ func (r *Run) WantSample() bool {
 // Current records the case about to run so that a process-fatal event
 // can be attributed.
 func (r *Run) Current(caseIdx int64, desc string) {
+	Progress.Add(1)
+	r.curIdx.Store(caseIdx)
+	r.curDesc.Store(desc)
 	b := []byte(fmt.Sprintf("%-20d %-400.400s\n", caseIdx, desc))
 	_, _ = r.cur.WriteAt(b, 0)
+}
+
+// Progress is bumped whenever a monitor completes a step (a case is
+// counted, a wait helper returns, a history check starts or ends). The
+// child's stall detector reads it.
+var Progress atomic.Int64
+
+// WatchStall starts the child's stall detector: when Progress does not
+// move for limit, the case in progress is written out as a "stall"
+// record together with a dump of all goroutines and the process exits
+// with status 4. The driver re-executes that case in fresh processes
+// before it draws any conclusion. A library call that spins (and
+// therefore never reaches quiescence) is only observable this way.
+func (r *Run) WatchStall(limit time.Duration) {
+	go func() {
+		last, since := Progress.Load(), time.Now()
+		for {
+			time.Sleep(500 * time.Millisecond)
+			if p := Progress.Load(); p != last {
+				last, since = p, time.Now()
+				continue
+			}
+			if time.Since(since) < limit {
+				continue
+			}
+			buf := make([]byte, 4<<20)
+			buf = buf[:runtime.Stack(buf, true)]
+			if len(buf) > 96<<10 {
+				buf = buf[:96<<10]
+			}
+			desc, _ := r.curDesc.Load().(string)
+			r.emit(Record{T: "stall", Prop: r.Prop, CaseIdx: r.curIdx.Load(), Case: desc, Seed: r.Seed, Build: r.Build,
+				Detail:  fmt.Sprintf("no monitor step completed for %v", limit),
+				Witness: string(buf)})
+			os.Exit(4)
+		}
+	}()
 }
 
 func (r *Run) emit(rec Record) {
